@@ -46,6 +46,7 @@ SITES = (
     "fmt.format",
     "repr",
     "stdout.write",
+    "module.body",
 )
 
 _tl = threading.local()
@@ -311,3 +312,12 @@ def make_tc(name):
 
 
 TCS = {n: make_tc(n) for n in ("tg", "bt", "min")}
+
+SPY_LOG = []
+
+
+def spy_tc(fn, *a, **k):
+    """Importable spy typechecker for hook operations ("sim.seams.spy_tc")."""
+    hit("tc.decorate")
+    SPY_LOG.append((getattr(fn, "__module__", None), getattr(fn, "__qualname__", None)))
+    return fn
